@@ -74,6 +74,9 @@ def fill(mfa, rng):
     k = 1
     for f in mfa.flows.values():
         n = f.values.size
+        if rng.random() < 0.12:
+            k += 1
+            continue  # a flow that is zero everywhere is a flow like any other
         v = (k * 4096.0 + rng.permutation(n) * 0.25).reshape(f.dims.shape)
         if rng.random() < 0.4:
             v = v / 3.0 + 0.1  # not representable as short decimals: every one of the 17 significant digits matters
@@ -85,8 +88,10 @@ def fill(mfa, rng):
     for s in mfa.stocks.values():
         for arr in (s.stock, s.inflow, s.outflow):
             n = arr.values.size
-            arr[...] = (k * 4096.0 + rng.permutation(n) * 0.25).reshape(arr.dims.shape)
             k += 1
+            if rng.random() < 0.2:
+                continue  # e.g. a pure sink: its outflow is zero everywhere (and still an exported quantity)
+            arr[...] = (k * 4096.0 + rng.permutation(n) * 0.25).reshape(arr.dims.shape)
 
 
 def snapshot(mfa):
@@ -131,6 +136,13 @@ def one(rec, hub, seed, tier, i, tmpdir):
         d.flows[1]["override"] = "scrap sorting - plant" if rng.random() < 0.5 else "scrap  sorting plant"
     if i % 4 == 3 and len(d.stocks) >= 2:
         d.stocks[0]["name"], d.stocks[1]["name"] = "in - use", "in use"
+    if i % 5 == 2:
+        # long descriptive names that differ only at their very end (distinct after sanitising, whatever their length)
+        long_ = "collection and mechanical sorting of post-consumer packaging waste from households and small businesses"
+        if len(d.flows) >= 2:
+            d.flows[0]["override"], d.flows[1]["override"] = long_ + ", stream A", long_ + ", stream B"
+        if len(d.stocks) >= 2 and i % 4 != 3:
+            d.stocks[0]["name"], d.stocks[1]["name"] = long_ + " (in use, region group 1)", long_ + " (in use, region group 2)"
     names = [SY.flow_name(d, f) for f in d.flows]
     san = [ref_file_name(n) for n in names]
     if len(set(names)) != len(names) or len(set(san)) != len(san) or any(not x for x in san):
